@@ -75,6 +75,24 @@ func (e errCycleDetected) Format(w fmt.State, c rune) {
 // IsCycleDetected returns a boolean as to whether the provided error indicates
 // a cycle was detected in the container graph.
 func IsCycleDetected(err error) bool {
-	var cycle *errCycleDetected
-	return errors.As(err, &cycle)
+	// The caller may have wrapped dig's error. Below the outermost dig.Error
+	// only the links dig created are followed, never the error a constructor
+	// returned: a cycle another container rejected is not a cycle of this one.
+	var de Error
+	if !errors.As(err, &de) {
+		return false
+	}
+	for {
+		switch de.(type) {
+		case *errCycleDetected:
+			return true
+		case errConstructorFailed:
+			return false
+		}
+		next, ok := errors.Unwrap(de).(Error)
+		if !ok {
+			return false
+		}
+		de = next
+	}
 }
